@@ -197,6 +197,10 @@ def check_case(ctx: Ctx, case, reply, suite="convert"):
             model_view = reply
         else:
             m = reply["ok"]
+            if not m.get("wf"):
+                # the case lies outside the hypotheses of the theorems (ShapeWF, distinct parameter names): a
+                # generator bug, reported as a broken tie rather than silently counted as evidence
+                ctx.disagree("convert-hypotheses", short(case), "generated world", "shapeWFb = false")
             model_created = "ok" if m["created"] else "not_found"
             model_view = {"created": model_created}
             if m["created"]:
